@@ -601,7 +601,10 @@ fn lex_char(
                 kind: LexErrorKind::ExpectedCloseQuote {
                     position: next_index,
                 },
-                span: span(l, next_index, next_index + string.len()),
+                // `string` also holds the first character, which precedes `next_index`, and its
+                // length in bytes says nothing about where the lexer stopped: adding the two gave
+                // offsets beyond the source or inside a multi-byte character (a panic in `span`).
+                span: span_until(l, next_index),
             },
         );
 
